@@ -397,7 +397,7 @@ def _result_kind(repo, g, fi, e, depth=0, seen=None):
             return None
         kinds = set()
         for c in callees:
-            kinds.add(_returns_kind(repo, g, c.func, depth + 1, seen))
+            kinds.add(_returns_kind(repo, g, c.func, depth + 1, seen) if getattr(c, "func", None) is not None else None)
         return "data" if "data" in kinds else None if None in kinds else "immutable"
     return None
 
@@ -432,7 +432,7 @@ def memo_verdict(op, fi, what):
                 except Exception:
                     cs = []
                 for c in cs:
-                    if c.func.key not in reach:
+                    if getattr(c, "func", None) is not None and c.func.key not in reach:
                         reach[c.func.key] = c.func
                         todo.append(c.func)
     for k in sorted(reach):
@@ -469,6 +469,26 @@ def w3(chk, op):
                 bad.append(f"{fi.key}: global {root} = ...")
                 continue
             if root is None:
+                continue
+            if root in fi.local_bindings() and root not in fi.params:
+                # a local that is just another name for a module-level container (`layout = record_layout`; no copy in between):
+                # what is stored through it is stored in the module-level object
+                srcs = [n.value for n in fi.own_nodes() if isinstance(n, ast.Assign) and any(isinstance(t, ast.Name) and t.id == root for t in n.targets)]
+                others = [n for n in fi.own_nodes() if isinstance(n, (ast.For, ast.comprehension, ast.With, ast.AugAssign, ast.AnnAssign, ast.NamedExpr))
+                          and any(isinstance(x, ast.Name) and x.id == root and isinstance(x.ctx, ast.Store) for x in ast.walk(n))]
+                if srcs and not others:
+                    shared = []
+                    for v in srcs:
+                        alts = [v.body, v.orelse] if isinstance(v, ast.IfExp) else list(v.values) if isinstance(v, ast.BoolOp) else [v]
+                        for alt in alts:
+                            if isinstance(alt, ast.Name) and alt.id not in fi.params and alt.id not in fi.local_bindings():
+                                r_ = repo.resolve_name(fi, alt.id)
+                                if r_.kind == "value" and any(isinstance(e_, (ast.Dict, ast.List, ast.Set, ast.DictComp, ast.ListComp, ast.SetComp)) or
+                                                              (isinstance(e_, ast.Call) and norm(e_.func) in ("dict", "list", "set", "OrderedDict", "defaultdict", "collections.OrderedDict", "collections.defaultdict"))
+                                                              for e_ in getattr(r_, "exprs", []) or []):
+                                    shared.append(alt.id)
+                    if shared:
+                        bad.append(f"{fi.key}: {short(node, 60)} changes module-level {shared[0]} through its other name `{root}`")
                 continue
             if root in fi.params or root in fi.local_bindings():
                 continue
